@@ -240,9 +240,13 @@ class _Tunnel(Interface):
         try:
             await self._disconnect_request()
         finally:
-            # a frame that was waiting for its acknowledgement may have given up and
-            # started a reconnect while the DisconnectRequest was pending
+            # While the DisconnectRequest was pending the connection may have been lost,
+            # a frame waiting for its acknowledgement may have given up or a frame may
+            # have arrived out of order. Stop whatever that has started (reconnect,
+            # heartbeat, scheduled reconnect) and leave a consistently closed tunnel.
             self._stop_reconnect()
+            self._prepare_disconnect()
+            self.communication_channel = None
             self.transport.stop()
 
     ####################
